@@ -17,6 +17,7 @@ P_Many   == { <<1, 0>>, <<2, 1>>, <<3, 2>>, <<1, 3>>, <<4, 1>> }
 P_Three  == { <<1, 0>>, <<2, 1>>, <<3, 2>> }
 X_Zero   == { <<0, 1>> }
 X_Few    == { <<0, 1>>, <<1, 4>> }
+X_Half   == { <<0, 1>>, <<1, 2>> }
 X_Signed == { <<0, 1>>, <<1, 4>>, <<-1, 4>>, <<1, 2>> }
 D_Few    == { <<1, 8>>, <<-1, 8>> }
 D_One    == { <<1, 8>> }
@@ -37,14 +38,18 @@ FL_All   == { <<FALSE, FALSE>>, <<FALSE, TRUE>>, <<TRUE, FALSE>>, <<TRUE, TRUE>>
 FL_Plain == { <<FALSE, FALSE>> }
 FL_Two   == { <<FALSE, FALSE>>, <<TRUE, TRUE>> }
 O_Default == { <<"sympy", TRUE, "asc", "comp", "net">> }
-O_Four   == {"sympy", "numpy", "math"} \X BOOLEAN \X {"asc", "rev"} \X {"comp", "formula"}
-\* every bundle of the first four options with net coefficients, every written form with the default
-\* bundle, and a few mixed ones
-O_All    == { <<o[1], o[2], o[3], o[4], "net">> : o \in O_Four } \cup
-            { <<"sympy", TRUE, "asc", "comp", w>> : w \in {"self", "other", "inact"} } \cup
-            { <<"numpy", TRUE, "rev", "formula", "self">>, <<"math", FALSE, "asc", "comp", "other">>,
-              <<"sympy", FALSE, "rev", "formula", "inact">> }
-O_Hist   == { <<"sympy", TRUE, "asc", "comp", "net">>, <<"numpy", TRUE, "rev", "formula", "self">> }
+O_Four   == {"sympy", "numpy", "math"} \X BOOLEAN \X {"asc", "rev"} \X {"comp", "formula", "alias"}
+Idx(v, seq) == CHOOSE t \in 1..Len(seq) : seq[t] = v
+\* a half-factorial selection of the first four options (every pair of values occurs), every written form
+\* with the default bundle, and a few mixed ones
+Half(o) == (Idx(o[1], <<"sympy", "numpy", "math">>) + (IF o[2] THEN 0 ELSE 1) + Idx(o[3], <<"asc", "rev">>)
+            + Idx(o[4], <<"comp", "formula", "alias">>)) % 2 = 0
+O_All    == { <<o[1], o[2], o[3], o[4], "net">> : o \in {p \in O_Four : Half(p)} } \cup
+            { <<"sympy", TRUE, "asc", "comp", w>> : w \in {"net", "self", "other", "inact"} } \cup
+            { <<"numpy", TRUE, "rev", "formula", "self">>, <<"math", FALSE, "asc", "alias", "other">>,
+              <<"sympy", FALSE, "rev", "alias", "inact">> }
+O_Hist   == { <<"sympy", TRUE, "asc", "comp", "net">>, <<"numpy", TRUE, "rev", "formula", "self">>,
+              <<"sympy", FALSE, "asc", "alias", "net">> }
 O_Some   == { <<"sympy", TRUE, "asc", "comp", "net">>, <<"numpy", TRUE, "rev", "formula", "other">>,
               <<"math", TRUE, "asc", "formula", "net">>, <<"sympy", FALSE, "rev", "comp", "self">>,
               <<"numpy", FALSE, "asc", "comp", "net">>, <<"sympy", TRUE, "rev", "formula", "inact">> }
